@@ -20,8 +20,8 @@ RULE = ('(a) generated block bodies (reads/sets/replaces/deletes/pops/pulls/incr
         'readers must never see a mixed stamp, and a second thread on the same object must wait or time out. '
         'evaluations = (body, raise point) executions + schedules; distinct_nontrivial = distinct (container, '
         'exception type, operation mix at the raise point) cells + distinct schedules with a preemption inside a block')
-DISTINCT = ('abort_cells', 'block_schedules')
-REQUIRED = ('aborts_judged', 'commits_judged', 'nested_blocks', 'aborted_after_file_removal', 'aborted_after_file_write',
+DISTINCT = ('abort_cells', 'block_schedules', 'block_plan_schedules')
+REQUIRED = ('block_plan_schedules_judged', 'aborts_judged', 'commits_judged', 'nested_blocks', 'aborted_after_file_removal', 'aborted_after_file_write',
             'deque_blocks', 'index_blocks', 'fanout_blocks', 'block_schedules_run', 'snapshot_reads',
             'foreign_thread_attempts', 'blocks_whose_commit_had_to_wait')
 ASSUMPTIONS = ('the reference model is flat: only the outermost block exit decides commit or rollback',
@@ -512,6 +512,128 @@ def block_schedule(dc, sc, res, rng, label):
         sc.drop(d)
 
 
+# ------------------- one shared Cache object: a block beside another thread, statement-level change points enumerated
+def block_plans(dc, sc, res, rng, label, other, abort, big, part):
+    """Thread A runs one transact() block (two writes; committed or left by an exception), thread B makes one call or
+    runs a block of its own, both through ONE Cache object.  Gates: SQL statements, file operations and the statements
+    of the library that store an attribute (the owner thread id and the file lists of the open transaction live in
+    attributes of the shared object).  The running thread keeps running; control changes hands only at planned
+    statement gates; every plan with at most two change points is run.  Judged as any block schedule: blocks are
+    composite operations of a linearizable history, nothing of an aborted block is visible, rows / counters / files agree."""
+    from ..sched import code_objects
+    codes = code_objects(dc.Cache)
+    d = sc.new()
+    keys = ['k1', 'k2']
+    seen = set()
+    init_v = stamp('init', big)
+    try:
+        cache = dc.Cache(d, disk_min_file_size=T, timeout=0)
+
+        def run(plan, start):
+            cache.clear()
+            for k in keys:
+                cache.set(k, init_v)
+            clock = probe.set_clock(probe.VClock())
+            sch = Sched(rng, clock, strategy='plan', max_steps=30000, line_codes=codes, only_stores=True)
+            sch.plan, sch.start = plan, start
+            rec = Recorder(sch)
+            sa, sb = stamp('A', big), stamp('B', big)
+
+            def block(ci, s, aborts):
+                def body():
+                    try:
+                        with cache.transact(retry=True):
+                            for k in keys:
+                                cache.set(k, s)
+                            if aborts:
+                                raise Boom()
+                    except Boom:
+                        return 'aborted'
+                    return 'committed'
+                subs = [] if aborts else [{'op': 'set', 'args': (k, s), 'kw': {}} for k in keys]
+                return lambda: rec.call(ci, 'block', (subs,), body)
+
+            def call_b():
+                if other == 'block':
+                    return block(1, sb, False)()
+                if other == 'set':
+                    return rec.call(1, 'set', ('k1', sb), lambda: cache.set('k1', sb, retry=True))
+                if other == 'get':
+                    return rec.call(1, 'get', ('k2', 'MISS'), lambda: cache.get('k2', 'MISS', retry=True))
+                if other == 'pop':
+                    return rec.call(1, 'pop', ('k1', 'MISS'), lambda: cache.pop('k1', 'MISS', retry=True))
+                return rec.call(1, 'delitem', ('never-stored',), lambda: cache.__delitem__('never-stored'))
+            completed = sch.run([block(0, sa, abort), call_b])
+            probe.set_controller(None)
+            extra = {'label': label, 'shared_object': True, 'other_thread': other, 'block_aborts': abort,
+                     'change_points': sorted(plan.items()), 'first_client': start, 'trace_hash': sch.trace_hash()}
+            errs = sch.errors()
+            if errs:
+                res.violation('client died in a block schedule: %s' % errs[0][1][1][-500:], extra)
+                return None
+            if not completed:
+                res.count('schedules_hit_step_cap')
+                return sch.line_count
+            h = sch.trace_hash()
+            if h in seen:
+                return sch.line_count
+            seen.add(h)
+            res.seen('block_plan_schedules', h)
+            res.count('block_plan_schedules_judged')
+            res.count('evaluations')
+            ops = []
+            for o in rec.ops:
+                if o['kind'] == 'raise' and not (o['op'] == 'delitem' and o['result'] == 'KeyError'):
+                    res.violation('%s raised %s (%s) beside a block on a shared object' % (o['op'], o['result'], o.get('exc')), extra)
+                    return None
+                if o['op'] == 'block':
+                    o = dict(o, result=tuple(('ok', True) for _ in o['args'][0]))
+                ops.append(o)
+            fresh = dc.Cache(d)
+            t = sch.tick + 5
+            for k in keys:
+                ops.append({'client': 99, 'op': 'get', 'args': (k, 'MISS'), 'kw': {}, 'call': t, 'ret': t + 1, 'kind': 'ok',
+                            'result': fresh.get(k, 'MISS')})
+                t += 2
+            fresh.close()
+            init = tuple(sorted(((k, init_v) for k in keys), key=repr))
+            try:
+                ok, info = lin.check(ops, init, lin.kv_step, timeout=10)
+            except lin.Timeout:
+                ok = True
+            if not ok:
+                res.violation('blocks are not atomic: history with blocks as composite operations is not linearizable',
+                              dict(extra, checker=info, history=[
+                                  {x: (o[x] if x != 'args' or o['op'] != 'block' else [q['args'] for q in o['args'][0]])
+                                   for x in ('client', 'op', 'args', 'call', 'ret', 'result')} for o in ops]))
+                return None
+            problems = observe.invariant(d)
+            if problems:
+                res.violation('after a block beside another thread on a shared object: %r' % (problems[:3],), extra)
+                return None
+            return sch.line_count
+
+        plans = []
+        for start in (0, 1):
+            n = run({}, start)
+            if n is None:
+                return
+            o = 1 - start
+            plans += [({a: o}, start) for a in range(1, n + 3)]
+            plans += [({a: o, b: start}, start) for a in range(1, n + 3) for b in range(a + 1, n + 6)]
+        for plan, start in plans[part[0]::part[1]]:
+            if run(plan, start) is None:
+                return
+        res.count('block_plan_programs')
+    finally:
+        probe.set_controller(None)
+        try:
+            cache.close()
+        except Exception:      # noqa: BLE001
+            pass
+        sc.drop(d)
+
+
 def stamp(tag, big):
     s = '%s;' % tag
     return s * (T // len(s) + 2) if big else s
@@ -646,6 +768,19 @@ def run_shard(tier, seed, shard, nshards, res):
         for i in range(6 if tier == 'quick' else 60):
             rng = common.rng_for(seed, 'c06w', shard, i)
             block_commit_waiting(dc, sc, res, rng, 'c06 commit waiting seed=%d shard=%d i=%d' % (seed, shard, i))
+        # a block beside another thread on one shared object, all plans to the bound: 20 programs (what the other thread
+        # does x block commits or aborts x values in files or not); a quick run does a sixth of the plans of the
+        # program that is this worker's turn (eight programs per run), the thorough tier all plans of five programs per worker
+        programs = [(o, a, b) for o in ('set', 'get', 'block', 'pop', 'delitem') for a in (False, True) for b in (False, True)]
+        if tier == 'quick':
+            o, a, b = programs[(seed * 16 + shard) // 2 % len(programs)]
+            block_plans(dc, sc, res, common.rng_for(seed, 'c06p', shard), 'c06 plans seed=%d shard=%d' % (seed, shard),
+                        o, a, b, (((seed * 16 + shard) % 2) * 3 + seed % 3, 6))
+        else:
+            for j in range(5):
+                o, a, b = programs[(seed * 7 + shard * 5 + j) % len(programs)]
+                block_plans(dc, sc, res, common.rng_for(seed, 'c06p', shard, j),
+                            'c06 plans seed=%d shard=%d j=%d' % (seed, shard, j), o, a, b, (0, 1))
         probe.reset()
         m = 40 if tier == 'quick' else 500
         for i in range(m):
